@@ -980,6 +980,9 @@ func genBuf(t *rapid.T) BufCase {
 					// the entry's log payload (17 + key + value bytes) lands on, or a few
 					// bytes around, the largest unfragmented record (32768)
 					op.Len = 32768 - 17 - len(c.Keys[op.K]) + rapid.IntRange(-8, 3).Draw(t, "edge_d")
+					if op.Len < 0 { // a key that is itself longer than a record
+						op.Len = 1
+					}
 				}
 				op.Tag = tag
 				tag++
